@@ -146,7 +146,10 @@ def only_polled_parameters(ctx):
         ctx.check(ok, f'{pt.qualname}:registration guarded by the poll flag', c, 'append only `if rfunc.poll`',
                   'read functions are registered for polling regardless of their poll flag: parameters marked as not polled are read by the poller', pt)
     # the slow-poll loop draws only from polled_parameters
-    srcs = [x for x in body_walk(pt.node) if isinstance(x, ast.Call) and call_attr(x) == 'extend' and src(x.func.value) == 'to_poll']
+    # (the list that is filled and then becomes `to_poll`: to_poll itself or a local it is built from - iter(collected))
+    lists = {'to_poll'} | {n2.id for x in body_walk(pt.node) if isinstance(x, ast.Assign) and any(src(t) == 'to_poll' for t in x.targets)
+                           for n2 in ast.walk(x.value) if isinstance(n2, ast.Name)}
+    srcs = [x for x in body_walk(pt.node) if isinstance(x, ast.Call) and call_attr(x) in ('extend', 'append') and src(x.func.value) in lists]
     ok = bool(srcs) and all(x.args and src(x.args[0]).endswith('.polled_parameters') for x in srcs)
     ctx.check(ok, f'{pt.qualname}:slow polls drawn from polled_parameters', pt.node, 'to_poll.extend(pinfo.polled_parameters)',
               'the slow-poll list is filled from another source than polled_parameters', pt)
@@ -352,6 +355,69 @@ def _t13(test):
     return t, neg
 
 
+@rule('C13.R8', min_instances=1)
+def a_poll_interval_of_zero_is_an_interval(ctx):
+    """poll intervals are numbers for which 0 is a legitimate choice (setFastPoll(True, 0): as fast as possible; the poll loop
+    handles it).  Where PollInfo / setFastPoll choose between intervals, the choice is made by the fast FLAG or by `is None`,
+    never by the truth value of an interval (`fast_interval or normal_interval` silently keeps the slow interval for 0)"""
+    from sa.rules.common import _truthiness_operands
+    m = ctx.m
+    units = [f for q, f in sorted(m.functions.items()) if (f.cls is not None and f.cls.qualname == 'frappy.modulebase.PollInfo') or
+             q == f'{roles.MODULE}.setFastPoll']
+    if not units:
+        raise AnchorMissing('PollInfo / setFastPoll not found')
+    n = 0
+    for f in units:
+        ctx.analysed(f)
+        for x in body_walk(f.node):
+            bad = []
+            if isinstance(x, ast.BoolOp) and isinstance(x.op, ast.Or):
+                bad = [v for v in x.values[:-1] if 'interval' in src(v) and isinstance(v, (ast.Name, ast.Attribute))]
+            elif isinstance(x, (ast.IfExp, ast.If)):
+                bad = [v for v in _truthiness_operands(x.test) if 'interval' in src(v)]
+            for v in bad:
+                n += 1
+                ctx.bad(f'{f.qualname}:an interval is not chosen by its truth value', x, f'`{src(x)[:90]}` treats `{src(v)}` == 0 like "not given": '
+                        'setFastPoll(True, 0) switches the flag on but the poll thread keeps the slow interval', f)
+    if not n:
+        ctx.ok('frappy.modulebase.PollInfo:an interval is not chosen by its truth value', None, f'{len(units)} functions scanned')
+
+
+@rule('C13.R7', min_instances=1)
+def a_parameter_is_judged_by_the_slow_interval_of_its_own_module(ctx):
+    """the age test of a slow-polled parameter (`now > pobj.timestamp + <module>.slowinterval * 0.5`) uses the slow interval of
+    the module the parameter belongs to: <module> is bound by the same loop / comprehension that binds the parameter object
+    (several modules with different slow intervals share one poll thread) - a left-over variable of another loop makes every
+    parameter wait for the slow interval of whatever module that loop saw last"""
+    m = ctx.m
+    pt = roles.poll_thread(m)
+    ctx.analysed(pt)
+    n = 0
+    for cmp_ in [x for x in ast.walk(pt.node) if isinstance(x, ast.Compare) and '.timestamp' in src(x) and 'slowinterval' in src(x)]:
+        n += 1
+        pobjs = {a.value.id for a in ast.walk(cmp_) if isinstance(a, ast.Attribute) and a.attr == 'timestamp' and isinstance(a.value, ast.Name)}
+        mods = {a.value.id for a in ast.walk(cmp_) if isinstance(a, ast.Attribute) and a.attr == 'slowinterval' and isinstance(a.value, ast.Name)}
+        binder = None
+        for a in ancestors(cmp_):
+            gens = a.generators if isinstance(a, (ast.GeneratorExp, ast.ListComp, ast.SetComp, ast.DictComp)) else []
+            for g in gens + ([a] if isinstance(a, ast.For) else []):
+                bound = {x.id for x in ast.walk(g.target) if isinstance(x, ast.Name)}
+                if pobjs & bound:
+                    binder = bound
+                    break
+            if binder is not None:
+                break
+        if binder is None:
+            ctx.undecided(f'{pt.qualname}:slow interval of the parameter own module', cmp_, 'binding of the parameter object not found', pt)
+            continue
+        ctx.check(mods <= binder, f'{pt.qualname}:slow interval of the parameter own module', cmp_, f'`{src(cmp_)}`: module and parameter come from the same item',
+                  f'`{src(cmp_)}` takes the slow interval of `{sorted(mods - binder)}`, a variable that is NOT bound together with the parameter object '
+                  f'({sorted(binder)}): with several modules on one poll thread a parameter is refreshed according to the slow interval of another module - '
+                  'its staleness bound does not hold', pt)
+    if not n:
+        raise AnchorMissing('age test of slow-polled parameters (timestamp + slowinterval) not found in the poll thread')
+
+
 @rule('C13.R6', min_instances=6)
 def the_poll_loop_does_its_work(ctx):
     """presence and polarity of what bounded staleness rests on: a module whose main interval has expired (`now > last_main +
@@ -401,6 +467,12 @@ def the_poll_loop_does_its_work(ctx):
               'a change of the pollinterval parameter never reaches PollInfo.interval: it has no effect until restart', pt)
     sf = m.method(roles.MODULE, 'setFastPoll', inherited=False)
     ctx.analysed(sf)
+    pic = m.classes.get('frappy.modulebase.PollInfo')
+    if pic is not None and ('interval' in pic.methods or 'fast_flag' in pic.methods):
+        # another state representation: interval / fast_flag are derived (properties), not stored - what setFastPoll and
+        # update_interval have to store is then a question about that representation, which these rules do not model
+        ctx.undecided(f'{sf.qualname}:stores flag and interval', sf.node, 'PollInfo.interval / fast_flag are properties: the stored representation is not decided', sf)
+        return
     cfgs = CFG(sf.node, m, sf.module)
     st = {tg.attr: (v, s) for tg, v, s in attr_stores(sf.node) if tg.attr in ('fast_flag', 'interval')}
     ctx.check(set(st) == {'fast_flag', 'interval'}, f'{sf.qualname}:stores flag and interval', sf.node, 'both are stored',
